@@ -117,6 +117,7 @@ Plan capacity_generate(uint64_t base, const std::string &prop, uint64_t index, i
                 default: p.ops.push_back(mk(ro.chance(1, 2) ? W_COUNTER : W_VERIFY)); break;
             }
         }
+        for (auto &o : p.ops) if ((o.code == W_BYTES || o.code == W_STRING_LEN || o.code == W_RAW) && ro.chance(1, 6)) o.c = 1 + (int64_t)ro.below(ro.chance(1, 2) ? 3 : 20);      // value prepared in place, 0..19 bytes ahead
         p.note = "token soup";
     }
     if (prop == "C09") {
@@ -209,7 +210,7 @@ Result capacity_execute(const Plan &p, const ExecCtx &c) {
             if (ws.counter() != S) sink.fail("C04.counter.final", fmt("cap=%zu: counter=%zu, exact encoded size %zu", cap, ws.counter(), S));
         } else if (failed && e == 0) sink.fail("C09.writer.flag_lost", fmt("cap=%zu: a write failed but the error indicator is NONE", cap));
         if (keep && memcmp(ws.dest(), E.data(), keep) != 0) sink.fail("C04.prefix", fmt("cap=%zu: destination does not hold the first %zu bytes of the reference encoding", cap, keep));
-        for (size_t j = keep; j < cap; j++) if (ws.dest()[j] != WSession::FILL) { sink.fail(failed ? "C04.stored_after_failure" : "C04.stray_store", fmt("cap=%zu: byte %zu was modified beyond the %zu-byte prefix that fits", cap, j, keep)); break; }
+        for (size_t j = keep; j < cap; j++) if (ws.dest()[j] != ws.shadow[j]) { sink.fail(failed ? "C04.stored_after_failure" : "C04.stray_store", fmt("cap=%zu: byte %zu was modified beyond the %zu-byte prefix that fits", cap, j, keep)); break; }
         if (sink.failed()) break;
         // ---- C09 writer: arbitrary further calls after the run (latch monitor inside WSession checks return/stores/flag)
         if (!p.ops2.empty()) {
